@@ -34,7 +34,7 @@ func hookUBinary(kind int) func(index int, c *CaseBinary[scriptU]) error {
 // one case through MarshalBinary: failure reported iff the independent per-case oracle says so
 //
 //verif:harness C20 quick mode=0..4 pred=0..2 cons=0..1 hooks=0..3
-//verif:harness C20 thorough mode=0..4 pred=0..5 cons=0..2 hooks=4..15
+//verif:harness C20 thorough mode=0..4 pred=0..8 cons=0..2 hooks=4..15
 func H_C20_marshalBinary(mode int, pred int, cons int, hooks int) {
 	if pred >= 2 && mode == 4 {
 		return // the text of a panic error contains a stack trace: only AnyError is meaningful there
@@ -76,6 +76,7 @@ func H_C20_marshalBinary(mode int, pred int, cons int, hooks int) {
 		}
 	}
 	vAssert("no-panic-escapes", !escaped)
+	knownErrorMatch(pred, mode, before, after, cons == 0 || cons == int(OnlyMarshal))
 	vAssert("failure-reported-iff-case-not-satisfied", (rec.errs > 0) == want)
 	vAssert("no-failnow-for-a-marshaler-type", rec.failNow == 0)
 	vReach("failing-case", want)
@@ -83,7 +84,7 @@ func H_C20_marshalBinary(mode int, pred int, cons int, hooks int) {
 }
 
 //verif:harness C20 quick mode=0..4 pred=0..2 cons=0..1 hooks=0..3
-//verif:harness C20 thorough mode=0..4 pred=0..5 cons=0..2 hooks=4..15
+//verif:harness C20 thorough mode=0..4 pred=0..8 cons=0..2 hooks=4..15
 func H_C20_unmarshalBinary(mode int, pred int, cons int, hooks int) {
 	if pred >= 2 && mode == 4 {
 		return
@@ -119,6 +120,7 @@ func H_C20_unmarshalBinary(mode int, pred int, cons int, hooks int) {
 		}
 	}
 	vAssert("no-panic-escapes", !escaped)
+	knownErrorMatch(pred, mode, before, after, cons == 0 || cons == int(OnlyUnmarshal))
 	vAssert("failure-reported-iff-case-not-satisfied", (rec.errs > 0) == want)
 	vReach("failing-case", want)
 	vReach("passing-case", !want)
@@ -151,7 +153,7 @@ func hookUJSON(kind int) func(index int, c *CaseJSON[scriptU]) error {
 // one case through MarshalJSON: failure reported iff the independent per-case oracle says so
 //
 //verif:harness C20 quick mode=0..4 pred=0..2 cons=0..1 hooks=0..3
-//verif:harness C20 thorough mode=0..4 pred=0..5 cons=0..2 hooks=4..15
+//verif:harness C20 thorough mode=0..4 pred=0..8 cons=0..2 hooks=4..15
 func H_C20_marshalJSON(mode int, pred int, cons int, hooks int) {
 	if pred >= 2 && mode == 4 {
 		return // the text of a panic error contains a stack trace: only AnyError is meaningful there
@@ -193,6 +195,7 @@ func H_C20_marshalJSON(mode int, pred int, cons int, hooks int) {
 		}
 	}
 	vAssert("no-panic-escapes", !escaped)
+	knownErrorMatch(pred, mode, before, after, cons == 0 || cons == int(OnlyMarshal))
 	vAssert("failure-reported-iff-case-not-satisfied", (rec.errs > 0) == want)
 	vAssert("no-failnow-for-a-marshaler-type", rec.failNow == 0)
 	vReach("failing-case", want)
@@ -200,7 +203,7 @@ func H_C20_marshalJSON(mode int, pred int, cons int, hooks int) {
 }
 
 //verif:harness C20 quick mode=0..4 pred=0..2 cons=0..1 hooks=0..3
-//verif:harness C20 thorough mode=0..4 pred=0..5 cons=0..2 hooks=4..15
+//verif:harness C20 thorough mode=0..4 pred=0..8 cons=0..2 hooks=4..15
 func H_C20_unmarshalJSON(mode int, pred int, cons int, hooks int) {
 	if pred >= 2 && mode == 4 {
 		return
@@ -236,6 +239,7 @@ func H_C20_unmarshalJSON(mode int, pred int, cons int, hooks int) {
 		}
 	}
 	vAssert("no-panic-escapes", !escaped)
+	knownErrorMatch(pred, mode, before, after, cons == 0 || cons == int(OnlyUnmarshal))
 	vAssert("failure-reported-iff-case-not-satisfied", (rec.errs > 0) == want)
 	vReach("failing-case", want)
 	vReach("passing-case", !want)
